@@ -10,6 +10,8 @@ elif base.startswith("m3_"):        # third wave: one change per property, suffi
     name = base[3:] + "_e"
 elif base.startswith("m4_"):        # fourth wave: suffix f
     name = base[3:] + "_f"
+elif base.startswith("m5_"):        # fifth wave: suffix g
+    name = base[3:] + "_g"
 else:
     name = base.replace("mut_", "")
 pid = name.split("_")[0]
